@@ -8,8 +8,8 @@ import json, os, subprocess, sys, time
 V = os.path.abspath(os.path.join(os.path.dirname(os.path.abspath(__file__)), ".."))
 SEED = os.path.join(V, "seeded")
 # checks other than the mutant's own property that are also expected to see it
-CROSS = {"C01-m1": ["C14"], "C01-m3": ["C08"], "C02-m2": ["C11"], "C13-m1": ["C11"], "C13-m3": ["C15"],
-         "C05-m3": ["C07"]}
+CROSS = {"C01-m1": ["C14", "C16"], "C01-m3": ["C08"], "C02-m2": ["C11"], "C13-m1": ["C11"], "C13-m3": ["C15"],
+         "C05-m3": ["C07"], "C16-m2": ["C14"], "C16-m3": ["C03"], "C17-m3": ["C03"]}
 
 
 def sh(cmd):
@@ -26,10 +26,22 @@ def evaluate(mid):
     if sh("git -C /repo status --porcelain").stdout.strip():
         print("REPO NOT CLEAN"); sys.exit(2)
     r = sh("git -C /repo apply %s/patch.diff" % d)
+    base = "HEAD"
     if r.returncode != 0:
-        meta["detection"] = {"error": "patch does not apply to /repo HEAD %s" % head()}
-        json.dump(meta, open(os.path.join(d, "meta.json"), "w"), indent=1)
-        print(mid, "patch does not apply"); return
+        # the patch was written before the verification hooks were committed: evaluate it on the tree
+        # without them (the checks work with and without hooks)
+        hooks = json.load(open(os.path.join(V, "MANIFEST.json")))["hooks"].get("source_commits", [])
+        ok = False
+        if hooks:
+            sh("git -C /repo reset -q --hard HEAD")
+            rr = sh("git -C /repo revert --no-commit %s" % " ".join(reversed(hooks)))
+            if rr.returncode == 0 and sh("git -C /repo apply %s/patch.diff" % d).returncode == 0:
+                ok, base = True, "HEAD with the hook commits reverted in the working tree"
+        if not ok:
+            sh("git -C /repo revert --abort; git -C /repo reset -q --hard HEAD")
+            meta["detection"] = {"error": "patch does not apply to /repo HEAD %s" % head()}
+            json.dump(meta, open(os.path.join(d, "meta.json"), "w"), indent=1)
+            print(mid, "patch does not apply"); return
     det = {}
     try:
         for c in [meta["property"]] + CROSS.get(mid, []):
@@ -41,8 +53,8 @@ def evaluate(mid):
                       "verdict": "caught" if r.returncode == 1 and viol else ("tool-error" if r.returncode == 2 else "missed")}
             print(mid, c, det[c]["verdict"], len(viol), "%ds" % det[c]["wall_s"], flush=True)
     finally:
-        sh("git -C /repo checkout -- . && git -C /repo clean -fdq -e target")
-    meta["detection"] = {"repo_head": head(), "tier": "quick", "checks": det,
+        sh("git -C /repo revert --abort; git -C /repo reset -q --hard HEAD && git -C /repo clean -fdq -e target")
+    meta["detection"] = {"repo_head": head(), "applied_on": base, "tier": "quick", "checks": det,
                          "ran": "git -C /repo apply seeded/%s/patch.diff; ./check <id> --tier quick; git -C /repo checkout -- ." % mid}
     json.dump(meta, open(os.path.join(d, "meta.json"), "w"), indent=1)
 
